@@ -84,8 +84,9 @@ Clauses(e) ==
         <<"ENV.dis", ok => U!DisRead(c, scale) = c.dis>>,
         <<"ENV.lines", ok => cpylines = c.cpy_lines>>,
         <<"ENV.sig", (ok /\ e.insp.ok /\ e.insp.sig_ok) => e.insp.sig = e.insp.bind>>,
-        \* the guarded hook in /repo is present and was on: without it the relaxation loop is not observed
-        <<"ENV.hook", e.hook>>
+        \* the guarded hook in /repo is present and was on (a to_code() that raises before the layout loop
+        \* starts logs nothing): without it the relaxation loop is not observed
+        <<"ENV.hook", ok0 => e.hook>>
        >>
        \o props
        \o <<
